@@ -162,7 +162,7 @@ def run_suite(suite, tier, seed, key):
         for l in open(os.path.join(wd, fn)):
             j = json.loads(l)
             per_case[(j["c"], j["form"])] += 1
-            cap = 30 if kind == "mismatch" else 400     # observed == predicted and the model flags it: judge (nearly) all of them
+            cap = 330 if kind == "mismatch" else 400     # observed == predicted and the model flags it: judge (nearly) all of them
             if per_case[(j["c"], j["form"])] > cap or len(cand) >= 6000: continue
             j["kind"] = kind
             cand.append(j)
@@ -175,7 +175,9 @@ def run_suite(suite, tier, seed, key):
                 for i, st in enumerate(j["steps"]):
                     if st["o"]["fault"] and (i >= len(exp) or not exp[i]["fault"]):
                         xf = i + 1; break
-                fo.write(json.dumps(dict(c=j["c"], form=j["form"], steps=j["steps"], xf=xf)) + "\n")
+                rec = dict(c=j["c"], form=j["form"], steps=j["steps"], xf=xf)
+                if j.get("formdiff"): rec["other"] = j["other"]
+                fo.write(json.dumps(rec) + "\n")
         strict = trace_mon(wd, os.path.join(wd, "cand.ndjson"), [], "mon_strict.out")
         kfs = known_findings()
         lenient = {}
